@@ -179,6 +179,8 @@ CLAIMED["C02"]["text"] += (" The all-or-nothing reading the translator gives eve
                            "Cursor::write_all as the stated closure: all bytes or none -- c02_code_try_write_restores, c02_code_try_write_all_or_nothing, c02_code_try_write_two; proofs/Gen2_equiv_trywrite.v).")
 CLAIMED["C13"]["text"] += (" can_redirect_auth_header itself (same host, and same scheme or an upgrade to https) is translated from src/client/flow.rs with what it reads off the two URIs as values, and is the model's test on the model's "
                            "URIs (c13_code_can_redirect_auth_header, c13_code_can_redirect_auth_header_spec; proofs/Gen2_equiv_auth.v).")
+CLAIMED["C10"]["text"] += (" The vector behind the list, src/util.rs ArrayVec::push / truncate / deref, is translated too; on the visible part its push appends and it panics exactly when full: the model's push_reason "
+                           "(c10_code_arrayvec_push, c10_code_arrayvec_push_any; proofs/Gen2_equiv_arrayvec.v).")
 for _p in ("C02", "C03", "C04", "C06", "C07", "C08", "C09", "C10", "C11", "C12", "C13", "C16", "C17"):
     CLAIMED[_p]["technique"] += " + the code's own functions translated to Gallina on every run and proved equivalent to the model"
 
